@@ -3,7 +3,7 @@ from checks.models import STATEFUL_MODELS, TOL_BY_MODEL, EXTRA_ARGS
 
 CHECK = Check(
     "C06",
-    props_modules=["OW.Props.C06"],
+    props_modules=["OW.Props.C06", "OW.Props.C06Laws"],
     families=[Family("KSPLIT", rtol=1e-9, atol_scale=1e-12, tol_by_model=TOL_BY_MODEL, args=["models=" + ",".join(STATEFUL_MODELS), "n=40"] + EXTRA_ARGS)],
     level="proof",
     trusted=[
@@ -20,15 +20,19 @@ CHECK = Check(
         "hotstart_InstreamDissolvedNutrientDecay_partial: HotStart is false with decay enabled (hotstart_InstreamDissolvedNutrientDecay_counterexample, KF-C06-InstreamDissolvedNutrientDecay-prevVolume); proved for doDecay < 0.5 (any arithmetic)",
         "hotstart_StorageRouting_partial: HotStart is false bit-exactly (hotstart_StorageRouting_counterexample: the root-finder seed qi is a local; the difference is within the 1e-3 mass-balance tolerance the property allows; an empty second part also zeroes the two dead state columns); proved exactly when the carried qi equals a fresh call's seed 0.0 and the second part has >= 1 step; exact split law storageRouting_split",
         "hotstart_InstreamFineSediment_partial: HotStart is false for a negative carried channel store (re-read as a fraction of the maximum storage at every call; hotstart_InstreamFineSediment_counterexample needs maximum storage < 0, i.e. unphysical parameters); proved for every split with a non-negative carried store, and unconditionally at R for maximum storage >= 0 (hotstart_InstreamFineSediment_real)",
-        "hotstart_GR4J: needs IntRoundTrip (int(float(n)) = n for the store sizes n1, n2); instantiated at R (hotstart_GR4J_real)",
-        "hotstart_StorageTrapAll_of_add_zero: needs y + 0.0 = y (false in IEEE only for y = -0.0); instantiated at R (hotstart_StorageTrapAll_real)",
+        "GR4J: holds for EVERY arithmetic with the law class IntRoundTripLaw (int(float(n)) = n; hotstart_GR4J_lawful, instance at R), and per "
+        "call under the BOUNDED law hotstart_GR4J_bounded (round trip only for n <= length of the state row: the two store sizes n1, n2; "
+        "IEEE doubles satisfy it up to 2^53). Not provable for Lean's Float itself (opaque operations): there the law is an explicit hypothesis",
+        "StorageTrapAll: holds for every arithmetic with the law class AddZeroLaw (y + 0.0 = y; hotstart_StorageTrapAll_lawful, instance at R), "
+        "and with NO law at all up to that one operation: hotstart_StorageTrapAll_upto_add_zero (any Num, hence Float): the one-call outputs are "
+        "element-wise the split-run outputs or those before '+ 0.0' (IEEE: differs only in the sign of a zero)",
     ],
 )
 
 META = dict(
     category="proof",
     text="Lean 4 theorems `hotstart_<M> : HotStart M.model` for the stateful kernel models (11 of 17 over ANY arithmetic, hence also the Float "
-         "instance; GR4J and StorageTrapAll given one arithmetic law, instantiated at R): running a period in one call equals running its parts "
+         "instance; GR4J and StorageTrapAll for every arithmetic satisfying one explicit law class — IntRoundTripLaw, bounded by the state-row length, resp. AddZeroLaw — with instances at R; StorageTrapAll also law-free up to '+ 0.0'): running a period in one call equals running its parts "
          "consecutively from the carried-forward final states (outputs concatenate, final states agree), for every split point, parameter set "
          "and series; for the four models where it is false (Sacramento, InstreamDissolvedNutrientDecay, StorageRouting bit-exactly, "
          "InstreamFineSediment with a negative carried store) a proved counter-example and a `_partial` theorem under the hypothesis that "
